@@ -129,6 +129,7 @@ class Live:
         self.m = mx.new_model(name)
         self.formulas = {}      # source text -> formula tuple id (for canonical description)
         self.recursion = recursion
+        self.last_exc = None    # what the last operation raised (the oracles that recognise a known finding read its text)
 
     # -- lookup
     def space(self, path):
@@ -147,6 +148,7 @@ class Live:
     # -- ops
     def apply(self, op):
         k = op[0]
+        self.last_exc = None
         try:
             with quiet():
                 old = mx.get_recursion()
@@ -155,9 +157,11 @@ class Live:
                     return self._apply(k, op)
                 finally:
                     mx.set_recursion(old)
-        except FormulaError:
+        except FormulaError as e:
+            self.last_exc = e
             return "err Formula " + err_kind(mx.get_error())
         except Exception as e:
+            self.last_exc = e
             return "err " + err_kind(e)
 
     def _apply(self, k, op):
@@ -165,7 +169,11 @@ class Live:
         if k == "new_space":
             parent = m if op[1] == "-" else self.space(op[1])
             bases = [self.space(b) for b in op[3]] if op[3] else None
-            parent.new_space(op[2], bases=bases)
+            if len(op) > 4 and op[4]:
+                # references handed to the constructor: ["new_space", parent, name, bases, {name: value}]
+                parent.new_space(op[2], bases=bases, refs={k_: self.refvalue(v) for k_, v in dict(op[4]).items()})
+            else:
+                parent.new_space(op[2], bases=bases)
             return "ok"
         if k == "del_space":
             path = op[1]
